@@ -314,6 +314,82 @@ fn text_index(mut seed: u64) {
     }
 }
 
+/// The store's real memtable (hook H7): two writers, a reader doing point loads and scans, and a
+/// cursor that outlives the table.
+#[cfg(rescrv_blue_verif)]
+fn memtable(seed: u64) {
+    use lsmtk::{VerifMemTable, WriteBatch};
+    use sst::Cursor;
+    use std::ops::Bound;
+    let mt: Arc<VerifMemTable> = Arc::new(VerifMemTable::default());
+    let done = Arc::new(AtomicBool::new(false));
+    let mut ws = Vec::new();
+    for t in 0..2u64 {
+        let m = Arc::clone(&mt);
+        ws.push(std::thread::spawn(move || {
+            for i in 0..4u64 {
+                let mut wb = WriteBatch::with_capacity(2);
+                // neighbouring keys of the two writers interleave
+                wb.put(format!("k{:02}", i * 4 + t * 2).as_bytes(), format!("v{t}{i}").as_bytes());
+                if (i + seed) % 2 == 0 {
+                    wb.put(format!("k{:02}", i * 4 + t * 2 + 1).as_bytes(), b"second");
+                }
+                m.write(&mut wb).expect("memtable write");
+            }
+        }));
+    }
+    let r = {
+        let m = Arc::clone(&mt);
+        let d = Arc::clone(&done);
+        std::thread::spawn(move || {
+            let mut rounds = 0;
+            while rounds < 25 && !(d.load(Ordering::Acquire) && rounds > 2) {
+                rounds += 1;
+                let mut tomb = false;
+                if let Some(v) = m.load(b"k04", u64::MAX, &mut tomb).expect("load") {
+                    assert!(v.starts_with(b"v"), "value of another key");
+                }
+                let (sb, eb): (Bound<Vec<u8>>, Bound<Vec<u8>>) = (Bound::Unbounded, Bound::Unbounded);
+                let mut c = m.range_scan(&sb, &eb, u64::MAX).expect("scan");
+                c.seek_to_first().unwrap();
+                let mut last: Option<Vec<u8>> = None;
+                loop {
+                    c.next().unwrap();
+                    let Some(k) = c.key() else { break };
+                    if let Some(p) = &last {
+                        assert!(p.as_slice() < k.key, "scan not increasing");
+                    }
+                    last = Some(k.key.to_vec());
+                }
+                std::thread::yield_now();
+            }
+        })
+    };
+    for w in ws {
+        w.join().unwrap();
+    }
+    done.store(true, Ordering::Release);
+    r.join().unwrap();
+    let (sb, eb): (Bound<Vec<u8>>, Bound<Vec<u8>>) = (Bound::Unbounded, Bound::Unbounded);
+    let mut c = mt.range_scan(&sb, &eb, u64::MAX).expect("scan");
+    drop(mt);
+    c.seek_to_first().unwrap();
+    let mut n = 0;
+    loop {
+        c.next().unwrap();
+        if c.key().is_none() {
+            break;
+        }
+        n += 1;
+    }
+    assert!(n >= 8, "the cursor that outlives the memtable lost entries: {n}");
+}
+
+#[cfg(not(rescrv_blue_verif))]
+fn memtable(_seed: u64) {
+    panic!("built without --cfg rescrv_blue_verif");
+}
+
 fn main() {
     let args: Vec<String> = std::env::args().collect();
     let w = args.get(1).map(|s| s.as_str()).unwrap_or("skiplist");
@@ -325,6 +401,7 @@ fn main() {
         "waitlist" => waitlist(seed),
         "queue" => queue(seed),
         "text" => text_index(seed),
+        "memtable" => memtable(seed),
         other => panic!("unknown workload {other}"),
     }
     println!("ok {w} {seed}");
